@@ -110,6 +110,18 @@ def make(shape: Dict[str, Any]) -> Any:
             ft = loop.create_task(fresh.async_request(zb, 3000))
             loop.advance_by(3100)
             ctx.check(ft.done() and ft._res is True and fresh.port == 8088 and fresh.text == svc2.text, 'a lookup after the update does not resolve the updated port / TXT')
+            if shape.get('late_host'):
+                # a host that joins only now (empty cache) has to learn the service from answers to its own queries
+                zd = env.make_zc(loop)
+                link.attach('10.0.0.4', zd)
+                zd.engine._async_schedule_next_cache_cleanup()
+                log_d: List[Any] = []
+                lookups_d: List[Any] = []
+                AsyncServiceBrowser(zd, T1, listener=L(loop, log_d, lookups_d))
+                loop.advance_by(4000)
+                ctx.check(len([e for e in log_d if e[1] == 'Added' and e[2] == N1]) == 1, 'a browser started after the update does not find the service')
+                for linfo, task in lookups_d:
+                    ctx.check(task.done() and task._res is True and linfo.port == 8088, 'a lookup on the late host does not resolve the updated service')
         # withdrawal
         if shape.get('drop_after_withdraw') is not None:
             link.drop = link.n + shape['drop_after_withdraw']
@@ -145,6 +157,7 @@ def obligations(tier: str) -> List[Obligation]:
     shapes['close-instead-of-unregister'] = {'close': True, 'symbolic': [3]}
     shapes['close-drop-goodbye-0'] = {'close': True, 'drop_after_withdraw': 0, 'symbolic': []}
     shapes['update-then-withdraw'] = {'update': True, 'symbolic': []}
+    shapes['update-then-late-host'] = {'update': True, 'late_host': True, 'symbolic': []}
     shapes['three-hosts'] = {'third_host': True, 'symbolic': [2]}
     if tier == 'thorough':
         shapes['late-browser'] = {'browser_first': False, 'symbolic': [2]}
